@@ -323,6 +323,10 @@ func (c *Client) sendRecv(tm message, rm message) error {
 	err := send(c.log, c.conn, tag(t), tm)
 	c.sendMu.Unlock()
 	if err != nil {
+		// Nothing will ever answer this tag: do not leave it registered.
+		c.pendingMu.Lock()
+		delete(c.pending, tag(t))
+		c.pendingMu.Unlock()
 		return fmt.Errorf("send: %w", err)
 	}
 
